@@ -267,7 +267,9 @@ def xparseSpec (line ans : String) : String :=
     else
       match parseConsts k, parseLevels lv, bad.toNat?, words ans with
       | some L, some ls, some nb, [o, li, ob] =>
-        if ob != "obs=same" then "fails observation-not-reproducible"
+        if ob.startsWith "obs=shared-report:" then
+          s!"fails result-depends-on-earlier-diagnostics-in-the-report {o} alone, {ob} after another file's errors"
+        else if ob != "obs=same" then "fails observation-not-reproducible"
         else if ls.any (· == L.ice) then
           -- classification only: what does the lexer model say about this input?
           match bytesOfHex h, parseClsTable ct with
